@@ -392,7 +392,32 @@ class ConstEval:
             if name == "pow" and len(args_nodes) == 2:
                 return self._convert(float(self.expr(args_nodes[0], env)) ** float(self.expr(args_nodes[1], env)), _ty(e))
             raise Unsupported("call to %s at %s" % (ci["qname"], loc_str(e)))
+        if k == "LambdaExpr":
+            # a closure value: the lambda and the environment it was created in (captures by reference and by copy are the same
+            # thing for the straight-line code folded here: nothing is assigned between creation and call)
+            if e.get("_lam") is None:
+                raise Unsupported("lambda without a body at %s" % loc_str(e))
+            return ("closure", e["_lam"], env)
+        if k == "CXXConstructExpr" and len(ch) == 1:
+            v = self.expr(ch[0], env)
+            if isinstance(v, tuple) and v and v[0] == "closure":
+                return v
         if k == "CXXOperatorCallExpr":
+            ci = callee_info(e)
+            if ci and ci["name"] == "operator()" and ci["obj"] is not None:
+                fn = self.expr(ci["obj"], env)
+                if isinstance(fn, tuple) and fn and fn[0] == "closure":
+                    lam, cenv = fn[1], fn[2]
+                    env2 = dict(cenv)
+                    for i, p_ in enumerate(lam.params):
+                        if i >= len(ci["args"]):
+                            raise Unsupported("missing lambda argument at %s" % loc_str(e))
+                        env2[p_.get("id")] = self._convert(self.expr(ci["args"][i], env), _ty(p_))
+                    try:
+                        self.stmt(lam.body, env2)
+                    except _Return as r:
+                        return r.v
+                    return None
             raise Unsupported("overloaded operator at %s" % loc_str(e))
         raise Unsupported("%s at %s" % (k, loc_str(e)))
 
